@@ -43,6 +43,10 @@ def skeletons(tier):
     for m, b, anno in bw:
         out.append({"id": f"main-{m}-bwd-{b}-anno{int(anno)}", "main": m, "bwd": b,
                     "params": {"bwdanno": anno, "step": True}})
+    out.append({"id": "main-ol-rebuild", "main": "ol", "bwd": "", "params": {"bwdanno": False, "step": False, "rebuild": 1}})
+    # event 0 starts at the (concrete) origin, so the loader's shift is 0 and the 130 far-away operators stay concrete
+    out.append({"id": "main-ol-pad130-rebuild", "main": "ol", "bwd": "", "vars": {"m0_ts": ["int", 0, 0]},
+                "params": {"bwdanno": False, "step": False, "rebuild": 1, "pad": 130}})
     if tier == "thorough":
         out.append({"id": "main-o-bwd-a-two-bwd-threads", "main": "o", "bwd": "a",
                     "params": {"bwdanno": True, "step": True, "bwd2": True}})
@@ -84,6 +88,12 @@ def build(sk):
         if ch == "o":
             host("aten::mm", f"m{k}", MAIN_TID)
             if k == 0:
+                for j in range(sk["params"].get("pad", 0)):
+                    # concrete, far-away sibling operators: they only push the ids of the later events beyond 127
+                    i = len(ev)
+                    ev.append(TG.op("aten::pad", 2 ** 42 + 10 * j, 5, tid=MAIN_TID))
+                    H.append({"id": i, "tid": MAIN_TID, "ts": 2 ** 42 + 10 * j, "dur": 5, "name": "aten::pad", "corr": None,
+                              "pad": True})
                 if sk["params"].get("step"):
                     host("ProfilerStep#7", "step", MAIN_TID, cat="user_annotation")
                 if sk["params"].get("bwdanno"):
@@ -124,7 +134,10 @@ def run(ctx):
         CG = ctx.mods["hta.common.trace_call_graph"].CallGraph
     else:
         from hta.common.trace_call_graph import CallGraph as CG
-    CG(ta.t, ranks=[0])
+    for _ in range(1 + int(ctx.params.get("rebuild", 0))):
+        # HTA builds a CallGraph per analysis call on the same Trace object: the stack columns written by an earlier
+        # build must not disturb a later one
+        CG(ta.t, ranks=[0])
     df = ta.t.get_trace(0)
     idx = [int(x) for x in ctx.cells(df["index"])]
     col = {c: dict(zip(idx, ctx.cells(df[c]))) for c in ["parent", "depth", "height", "num_kernels", "kernel_dur_sum",
@@ -149,7 +162,9 @@ def run(ctx):
             continue
         p = par[h["id"]]
         d = {"event": h["id"], "parent": p}
-        same = [x for x in H if x["tid"] == h["tid"] and x is not h]
+        # pads lie beyond every symbolic span (ts, dur <= 2^40 < 2^42) and are pairwise disjoint: they neither contain
+        # nor are contained in anything, so they are left out of the candidate sets
+        same = [x for x in H if x["tid"] == h["tid"] and x is not h and not x.get("pad") and not h.get("pad")]
         cands = [(x, sand(contains(x, h), x["dur"] > 0)) for x in same]
         attach = [sand(a["ts"] <= h["ts"], h["end"] <= a["end"]) for a in annos] if (link and h["tid"] == bwd_threads[0]) \
             else []
